@@ -103,6 +103,30 @@ static void spectrum_cases(int d, const std::vector<double>& E, const std::vecto
       }
     }
   }
+  // (b') the same filters with H, cutoff and ramp expressed in another unit (all three scaled by u, times by 1/u): the multipliers
+  //      are ratios and must not change -- in particular for units in which every frequency is far below or above 1
+  if (Emax > 0 && (std::fabs(E[0] - (std::sqrt(2.0) - 1.7)) < 1e-12 || ((long)(E[0] + 2 * E[1] + 4 * E[d - 1]) % 5 == 0))) for (double u : {1e-17, 1e-21, 1e12, 1e-150}) {
+    std::vector<double> Eu(d); for (int i = 0; i < d; i++) Eu[i] = E[i] * u;
+    SU_vector Hu = mkvec(d, B.proj(ref::diag(Eu)));
+    for (double c : {0.37, 1.21, 3.3, -1.21}) for (double r : {0.0, 0.1, 0.5 * c, c, -0.25 * c}) for (int which = 0; which < 2; which++) {
+      double t = which ? 0.7 : 1.0;
+      count("evaluations"); { uint64_t h = ref::fnv(&c, 8, hE); h = ref::fnv(&r, 8, h); h = ref::fnv(&u, 8, h); distinct(h ^ (40 + which)); }
+      std::vector<double> buf(2 * np, 1.0);
+      try { if (which) Hu.AvgRampFilter(buf.data(), t / u, c, r); else Hu.LowPassFilter(buf.data(), c * u, r * u); }
+      catch (const std::exception&) { violation(std::string(which ? "AvgRampFilter" : "LowPassFilter") + ":valid-ramp-rejected:rescaled-units" + ds, J().i("d", d).num("unit", u).num("cutoff", c).num("ramp", r).done()); continue; }
+      for (int p = 0; p < np; p++) {
+        double om = which ? w[p] * t : w[p];
+        double slack = 8 * ref::EPS * d * Emax * (which ? std::fabs(t) : 1.0);
+        if (tie(om, c, slack) || (r != 0 && tie(om, std::fabs(c) - std::fabs(r), slack))) { count("ties_skipped"); continue; }
+        double want = expect_mult(om, c, r);
+        double tol = 64 * ref::EPS * (1 + (r != 0 ? (std::fabs(c) + std::fabs(om)) / std::fabs(r) : 0)) + (r != 0 ? slack / std::fabs(r) : 0);
+        if (!(std::fabs(buf[p] - want) <= tol) || !(std::fabs(buf[np + p] - want) <= tol)) {
+          violation(std::string(which ? "AvgRampFilter" : "LowPassFilter") + ":wrong-multiplier:rescaled-units" + ds, J().i("d", d).arr("spectrum", E).num("unit", u).num("cutoff", c).num("ramp", r).i("pair", p).num("omega", om).num("cos_mult", buf[p]).num("sin_mult", buf[np + p]).num("want", want).done());
+          break;
+        }
+      }
+    }
+  }
   // (c) interval average
   const double IV[][2] = {{0, 1}, {-1, 2}, {0.5, 10}, {0, 1e-3}, {-1.5, 1.5}, {-0.25, 0.25}, {134217728.0, 134217729.0}, {1e6, 1e6 + 0.5}, {-3e5, -3e5 + 2}, {4096, 4096 + 1.0 / 1024}};   // incl. intervals symmetric about 0 (every sine average vanishes exactly)
   std::vector<std::vector<double>> probes = {probe(d, 0), probe(d, 1)};
